@@ -318,6 +318,7 @@ struct Engine : public vf::Engine {
         Vec<char*> pool[5];            // released cached buffers per size class (what the cache may hand out again)
         Vec<std::pair<char*, int> > everReleased;
         char foreignBuf[8][40]; for (int i = 0; i < 8; i++) snprintf(foreignBuf[i], sizeof foreignBuf[i], "foreign-%d", i);
+        snprintf(foreignBuf[3], sizeof foreignBuf[3], "100%%d of 7%%x"); snprintf(foreignBuf[5], sizeof foreignBuf[5], "%%s%%s%%s%%s%%n");      // what an unknown buffer holds is text, not a format
         size_t foreignReleases = 0; size_t warningsBefore = 0;
         if (d.groups.empty()) { cache->~SimpleStringInternalCache(); ::free(cache); r.hash = h.h; return; }
         const Group& H = d.groups[0];
